@@ -159,6 +159,8 @@ func init() {
 			}},
 		Rule{ID: "C01.f", Explain: "oversized attributes are replaced by IntHashSha256(x.Bytes()) exactly when BitLen(x) > Lm, identically at every site that implements it (verifier: disclosed values; prover: hidden values; RepresentToBases: signing/verifying).",
 			Run: func(P *Program, R *Report) { oversizedHashRule(P, R) }},
+		Rule{ID: "C01.h", Explain: "aliasing discipline: verifying a proof does not change it or the key, so that every verification of the same proof object gives the same verdict - no function mutates in place a big.Int it reached through gabi.ProofD / gabikeys.PublicKey (math/big mutators write their receiver), except the tabled merge/refresh functions.",
+			Run: func(P *Program, R *Report) { inPlaceDisciplineRule(P, R, "C01.h", "gabi.ProofD", "gabikeys.PublicKey") }},
 		Rule{ID: "C01.g", Explain: "never both: accept of ProofD verification is control-dependent on a test that no index is a key of both ADisclosed and AResponses (loop over one map with a lookup in the other leading to rejection).",
 			Run: func(P *Program, R *Report) {
 				parts := proofDParts(P, R, "C01.g")
